@@ -38,19 +38,6 @@ theorem idInv_put (db : Db) (k : Bytes) (v : Val) (exp : Option Int) (h : db.IdI
   · subst e; simp [Db.put]
   · have := h p hm; simp only [Db.put]; omega
 
-theorem mem_of_alookup {α} (k : Bytes) (l : List (Bytes × α)) (v : α) (h : alookup k l = some v) :
-    (k, v) ∈ l := by
-  induction l with
-  | nil => simp [alookup] at h
-  | cons q r ih =>
-    obtain ⟨k', v'⟩ := q
-    by_cases hk : (k' == k) = true
-    · have e : k' = k := by simpa using hk
-      simp only [alookup, hk, ↓reduceIte, Option.some.injEq] at h
-      subst e; subst h; exact List.mem_cons_self
-    · simp only [alookup, hk, Bool.false_eq_true, ↓reduceIte] at h
-      exact List.mem_cons_of_mem _ (ih h)
-
 /-- Every command that replaces a key (SET, GETSET, MSET, INCR/APPEND/SETRANGE/SETBIT/BITFIELD,
     the STORE forms, BITOP, RENAME/COPY onto it, key creation by a push/HSET/SADD) goes through
     `Db.put`: afterwards the key's version differs from every version recorded earlier — whether
@@ -720,24 +707,6 @@ theorem runCmd_versions (c : Ctx) (s : State) (conn ref : Nat) (m : Bool) (cmd :
 
 theorem vs_trans {a b d : Db} (h1 : VS a b) (h2 : VS b d) : VS a d := ⟨vstep_trans h1.step h2.step, h2.uniq⟩
 
-theorem alookup_of_mem_nodup {α} (l : List (Bytes × α)) (p : Bytes × α) (hp : p ∈ l) (hu : (l.map (·.1)).Nodup) :
-    alookup p.1 l = some p.2 := by
-  induction l with
-  | nil => cases hp
-  | cons q r ih =>
-    obtain ⟨k', v'⟩ := q
-    simp only [List.map_cons, List.nodup_cons] at hu
-    rcases List.mem_cons.mp hp with e | hm
-    · subst e; simp [alookup]
-    · have hne : (k' == p.1) = false := by
-        cases hk : k' == p.1 with
-        | false => rfl
-        | true =>
-          have : k' = p.1 := by simpa using hk
-          exact absurd (List.mem_map.mpr ⟨p, hm, this.symm⟩) hu.1
-      simp only [alookup, hne, Bool.false_eq_true, ↓reduceIte]
-      exact ih hm hu.2
-
 /-- the version invariant travels along `VS` -/
 theorem idInv_of_vs {db db' : Db} (hi : db.IdInv) (h : VS db db') : db'.IdInv := by
   intro p hp
@@ -752,23 +721,9 @@ theorem idInv_of_vs {db db' : Db} (hi : db.IdInv) (h : VS db db') : db'.IdInv :=
     omega
   · rw [hr] at e; cases e
 
-/-- one command of one connection, with the clock it saw -/
-structure Ev where
-  c : Ctx
-  conn : Nat
-  ref : Nat
-  inMulti : Bool
-  cmd : Cmd
-
 /-- the repaired behaviour: the three quirks that touch versions are off -/
 def Ev.repaired (e : Ev) : Prop :=
   e.c.q.inplaceKeepsVersion = false ∧ e.c.q.unlinkKeepsObject = false ∧ e.c.q.flushDetaches = false
-
-/-- any history: commands of any connections on any databases, in the order the store lock admits them
-    (the body of somebody's EXEC is such a run of commands too) -/
-def runEvents : State → List Ev → State
-  | s, [] => s
-  | s, e :: r => runEvents (runCmd e.c s e.conn e.ref e.inMulti e.cmd).st r
 
 theorem uniq_of_allvs {s s' : State} (h : AllVS s s') : s'.Uniq := fun r => (h r).uniq
 
@@ -799,17 +754,6 @@ def recorded (c : Ctx) (s : State) (ref : Nat) (k : Bytes) : Nat :=
   match (s.getDb ref).live c.now k with
   | some e => e.id
   | none => 0
-
-theorem live_some_raw {db : Db} {now : Int} {k : Bytes} {e : Entry} (h : db.live now k = some e) :
-    db.raw k = some e ∧ e.expired now = false := by
-  unfold Db.live at h
-  split at h
-  · split at h
-    · cases h
-    · rename_i h1 h2
-      cases h
-      exact ⟨h1, by simpa using h2⟩
-  · cases h
 
 /-- **EXEC aborts exactly when the watched key was touched.** Take any reachable state, WATCH a key
     (recording its version, 0 for a missing or expired key), let any history of commands of any
